@@ -212,7 +212,32 @@ _CURRENT = None
 
 
 def _job_global(job):
-    return _CURRENT._job(job)
+    """self-contained transition job: (cfg, seed, step_fn, saved, hist, op)"""
+    cfg, seed, step_fn, saved, hist, op = job
+    L = materialize(cfg, saved, seed)
+    res = apply_op(L, op) if op is not None else None
+    viols, info = step_fn(L, op, res, hist + ([op] if op is not None else []))
+    return dict(canon=canon(L), saved=L.save(), viols=viols, info=info, rc=None if res is None else res.rc)
+
+
+def make_jobs(ex, triples):
+    return [(ex.cfg, ex.seed, ex.step_fn, saved, hist, op) for saved, hist, op in triples]
+
+
+_INTERN = {}
+
+
+def intern_saved(saved):
+    """identical byte strings (file contents recur in thousands of states) are kept once in the parent"""
+    ents = saved["ents"]
+    for k, e in ents.items():
+        if e[0] == "f":
+            b = e[1]
+            ents[k] = (e[0], _INTERN.setdefault(b, b)) + tuple(e[2:])
+    vs = saved["versions"]
+    for k, lst in vs.items():
+        vs[k] = [_INTERN.setdefault(b, b) for b in lst]
+    return saved
 
 
 class Explorer:
@@ -264,9 +289,8 @@ class Explorer:
                 break
             nxt = []
             done = 0
-            global _CURRENT
-            _CURRENT = self
-            for job, r in par.pmap(_job_global, jobs, deadline=self.ctx.deadline):
+            for job, r in par.pmap(_job_global, make_jobs(self, jobs), deadline=self.ctx.deadline):
+                job = job[3:]
                 done += 1
                 self.transitions += 1
                 hist = job[1] + [job[2]]
@@ -279,7 +303,7 @@ class Explorer:
                     continue
                 seen.add(r["canon"])
                 self.states += 1
-                nxt.append((r["saved"], hist, r["info"]))
+                nxt.append((intern_saved(r["saved"]), hist, r["info"]))
             if done < len(jobs):
                 self.ctx.cap("%s: deadline hit at depth %d (%d of %d transitions of this depth done)" % (
                     self.label, depth, done, len(jobs)))
